@@ -145,7 +145,8 @@ def locate(src, path):
             # name may be 'Type' or 'Trait for Type'
             parts = [re.escape(p) for p in name.split()]
             # allow generic args after each identifier
-            pat = r'\bimpl\b\s*(?:<[^{};]*?>)?\s*' + r'\s*(?:<[^{};]*?>)?\s+'.join(parts) + r'\b\s*(?:<[^{};]*?>)?\s*(?:where[^{]*)?\{'
+            tail_b = r'\b' if re.match(r'\w', name[-1]) else ''
+            pat = r'\bimpl\b\s*(?:<[^{};]*?>)?\s*' + r'\s*(?:<[^{};]*?>)?\s+'.join(parts) + tail_b + r'\s*(?:<[^{};]*?>)?\s*(?:where[^{]*)?\{'
         elif kind in ('fn', 'struct', 'enum', 'trait', 'mod', 'type', 'const'):
             pat = r'\b' + kind + r'\s+' + re.escape(name) + r'\b'
         else:
